@@ -37,3 +37,22 @@ def to_json(chunks):
 
 def from_json(chunks):
     return [(c["id"].encode("latin1"), bytes(c["data"])) for c in chunks]
+
+
+def to_json_nested(data, strict=True):
+    """Chunk list in the convention of RVFormat: [id, data, isn, nested]; the payload of a CHDT that is itself a
+    chunk stream starting with one of the two documented container magics is kept as a nested chunk list."""
+    out = []
+    for cid, p in split(data, strict):
+        if cid == b"CHDT" and len(p) >= 8 and p[:8] in (b"SVOX\0\0\0\0", b"SSYN\0\0\0\0"):
+            try:
+                out.append({"id": "CHDT", "data": [], "isn": True, "nested": to_json_nested(p, True)})
+                continue
+            except TLVError:
+                pass
+        out.append({"id": cid.decode("latin1"), "data": list(p), "isn": False, "nested": []})
+    return out
+
+
+def from_json_nested(chunks):
+    return join([(c["id"].encode("latin1"), from_json_nested(c["nested"]) if c["isn"] else bytes(c["data"])) for c in chunks])
